@@ -66,6 +66,8 @@ type Ctx struct {
 	KnownHit    []string
 	Variants    []string
 	RuleAlias   map[string]string
+	// errVals: the values carrying the error under classification (E9).
+	errVals map[ssa.Value]bool
 	// Degraded: functions left unnormalised after an internal failure.
 	Degraded []string
 	// KeyOnly restricts what a borrowed rule records to the constructs the
